@@ -4,8 +4,7 @@ log=$1; shift
 for pair in "$@"; do
   seed=${pair%%:*}; chk=${pair##*:}
   pid=${seed%-*}; n=${seed#*-}
-  patch=/tmp/wt/$pid/_out/$n/patch.diff
-  [ -f /tmp/wt/$pid/_out/$n/patch.rebased.diff ] && patch=/tmp/wt/$pid/_out/$n/patch.rebased.diff
+  patch=/verif/seeded/$seed/patch.diff
   echo "=== seed $seed vs $chk" >> $log
   /verif/tools/tryseed.sh $patch $chk >> $log 2>&1
 done
